@@ -162,6 +162,9 @@ Proof.
   - (* set Update *) repeat split; auto using incl_appl, incl_refl.
     + now apply fold_left_set_union_NoDup.
     + intros y Hy. apply fold_left_set_union_In in Hy. apply in_or_app. destruct Hy as [Hy | Hy]; auto.
+  - (* set AssignView *) repeat split; auto using incl_appl, incl_refl.
+    + apply set_union_NoDup. constructor.
+    + intros y Hy. apply set_union_In in Hy. destruct Hy as [[] | Hy]. apply in_or_app. auto.
 Qed.
 
 (* C16: for every history of write operations, from any contents whose elements are recorded, the trace of
@@ -237,3 +240,12 @@ Proof. split; vm_compute; reflexivity. Qed.
 Lemma old_setitem_grown_wrong_position :
   setitem_grown (-1) 1 [2] [3] = Some [3; 1] /\ setitem_then_infer (-1) 1 [2] [3] = Some [1; 2].
 Proof. split; vm_compute; reflexivity. Qed.
+
+(* q = copy.copy(p); q.f = [1]: the element is in the field written through q but is recorded for p, to whom the shared container is
+   still bound (known finding C16-j); written through q.f.append it is recorded for q *)
+Theorem refuted_clone_assign :
+  let s := cstep (CAssign WQ [1]) (clone_init [0]) in In 1 (sitems s) /\ ~ In 1 (recs s WQ) /\ In 1 (recs s WP).
+Proof. simpl. split; [now left|]. split; [intros [] | right; now left]. Qed.
+
+Lemma clone_append_recorded w x s : In x (recs (cstep (CAppend w x) s) w).
+Proof. destruct w; simpl; apply in_or_app; right; now left. Qed.
